@@ -173,12 +173,37 @@ func genDestPool(t *rapid.T, segs []string, devs []string) []string {
 }
 
 func genMountBody(t *rapid.T, dest string) AdjMount {
-	return AdjMount{
+	m := AdjMount{
 		Dest:    dest,
 		Type:    pick(t, "mtype", "bind", "bind", "tmpfs", ""),
 		Source:  pick(t, "msrc", "/src/a", "/src/b", "/var/lib/x", "tmpfs", ""),
 		Options: rapid.SliceOfNDistinct(rapid.SampledFrom(mountOpts), 0, 3, rapid.ID[string]).Draw(t, "mopts"),
 	}
+	// Several propagation options in one list: the LAST one counts (it is what the runtime
+	// ends up with). Lists whose last propagation option is rprivate need no look at the
+	// host mount table, whatever stands before it; lists ending in rshared / rslave are host
+	// dependent and stay out of the domain.
+	if chance(t, "several_propagation_options", 1, 4) {
+		var opts []string
+		for _, o := range m.Options {
+			if o != "rprivate" {
+				opts = append(opts, o)
+			}
+		}
+		earlier := rapid.SliceOfN(rapid.SampledFrom([]string{"rshared", "rslave", "rprivate"}), 1, 2).Draw(t, "earlier_propagation")
+		// some ordinary options before, between and after the propagation options
+		at := rapid.IntRange(0, len(opts)).Draw(t, "propagation_at")
+		list := append([]string(nil), opts[:at]...)
+		list = append(list, earlier...)
+		rest := opts[at:]
+		if len(rest) > 0 && rapid.Bool().Draw(t, "option_between") {
+			list = append(list, rest[0])
+			rest = rest[1:]
+		}
+		list = append(list, "rprivate")
+		m.Options = append(list, rest...)
+	}
+	return m
 }
 
 func genDeviceBody(t *rapid.T, path string) AdjDevice {
